@@ -50,6 +50,12 @@ Proof. exact empty_data_torn_meta_rejected. Qed.
 (* ---- structural facts re-extracted from the Rust source on every run (tools/extract_src.py, Generated/Facts.v):
    the orderings inside the code that the models used above assume. A change of the code that invalidates one turns
    the generated boolean into `false` and this file no longer compiles. ---- *)
+(* Blob/Scan.v `dispose`: which failures quarantine a blob and which make init fail *)
+Theorem C06_source_quarantine_rule : Pearl.Generated.Facts.QUARANTINE_RULE = true.
+Proof. reflexivity. Qed.
+(* a short read during the scan is the quarantining error class *)
+Theorem C06_source_scan_maps_eof : Pearl.Generated.Facts.SCAN_MAPS_EOF_TO_BINCODE = true.
+Proof. reflexivity. Qed.
 (* Blob/Scan.v scan_loop checks cur1 + data_size against the file length after the meta size was added and before the data is read *)
 Theorem C06_source_scan_checks_record_end : Pearl.Generated.Facts.SCAN_CHECKS_RECORD_END = true.
 Proof. reflexivity. Qed.
@@ -254,3 +260,5 @@ Print Assumptions C06_quarantine_computed.
 Print Assumptions C06_all_quarantined_computed.
 Print Assumptions C06_cut_boundary_computed.
 Print Assumptions C06_cut_below_index_breaks_reads.
+Print Assumptions C06_source_quarantine_rule.
+Print Assumptions C06_source_scan_maps_eof.
